@@ -16,6 +16,19 @@ _HIST_ASSUME = [
 ]
 
 PROPS = {
+    "C11": {
+        "level": "exploration",
+        "jobs": [
+            {"run": "^TestC11Rounds", "checks": {"quick": 12, "thorough": 200}, "shards": {"quick": 4, "thorough": 16}, "steps": 14, "shrink_s": 45},
+            {"run": "^TestC11ResyncAfterFailure", "checks": {"quick": 8, "thorough": 60}, "shards": {"quick": 2, "thorough": 8}, "shrink_s": 45},
+        ],
+        "assumptions": [
+            "a reporting tick or sync round that does not complete within 10 s (it takes about 60 ms) is reported as a wedged client",
+            "whether a reply is acceptable is decided by the reference rule ref.AcceptSyncReply, not by the generator's intent",
+            "ban monotonicity is asserted under an unchanged GCA (a valid migration replaces the list by design, C17)",
+            "with every configured server banned no report is expected (reporting to a banned server would itself violate the property)",
+        ],
+    },
     "C09": {
         "level": "exploration",
         "jobs": [
@@ -140,6 +153,11 @@ PROPS = {
 
 # Texts for MANIFEST.json.
 META = {
+    "C11": {
+        "technique": "stateful property-based testing with fault injection: fake servers with real keys play drawn per-connection outcomes, including validly signed arbitrary replies",
+        "text": "A real client with 1-5 configured servers (dead, banned, or fake servers owning key pairs) runs generated sync rounds, ticks with new readings and restarts. Outcomes per connection cover refusals, resets, short reads, every length class up to 65535 with a valid signature over arbitrary content, wrong signers, stale timestamps, foreign device keys, entries lacking the GCA signature, GCA-signed bans and un-ban attempts. Checked: no panic, mutex free after every round, next tick emits, no server dialled twice per round or while known banned, bans monotone in memory and on disk and across restart, and re-sync within four ticks after a failed round driven by the client's own loop. Exploration only.",
+        "note": "'Every control-flow path of the locking code' is attacked dynamically only; paths not driven by the generated outcomes are not judged.",
+    },
     "C09": {
         "technique": "stateful property-based testing: history store against a map model; energy-file edit histories with ticks and restarts against a reference of the tick rule, with a UDP sink as observer",
         "text": "The history store is driven through save/load/reopen sequences with boundary timeslots and values and compared with a map model and the documented file layout. At wire level the energy file evolves by generated edits (append, rewrite, duplicate with another value, reorder, malformed rows, removal) interleaved with granted reporting ticks and client restarts; the exact emissions of every tick are predicted and, over the whole history, all datagrams for a slot with a power the server acts on must be byte-identical and carry the first stored reading. Exploration only.",
